@@ -142,7 +142,35 @@ func checkC03(c *Ctx) {
 			if badW != nil {
 				r.Fail("C03.5-denial-effect-free", construct+" / writer-denied edge", c.pos(badW), "an instruction with effects is reachable after the write-permission denial: "+badW.String())
 			} else if nFail == 0 {
-				r.Fail("C03.5-denial-effect-free", construct+" / writer-denied edge", c.pos(site), "no denial edge of the write-permission test found: undecided")
+				// the test sits in a predicate shared with the sys exemption (`canPublishAs`): its false
+				// outcome is the denial, decided with both guards
+				var bad2 ssa.Instruction
+				n2 := 0
+				for _, f := range regionFns {
+					pe, _ := core.GuardEdges(f, gW, gSys)
+					for e := range pe {
+						// only a branch on a summarised predicate call: the complement of a directly
+						// matched `cat == sys` test is not a denial
+						ifi := e.From.Instrs[len(e.From.Instrs)-1].(*ssa.If)
+						a := core.NormCond(ifi.Cond)
+						if _, isCall := core.Strip(a.Val).(*ssa.Call); a.Op != token.ILLEGAL || !isCall || gW.Name == "" {
+							continue
+						}
+						if m, _ := gW.Match(a); m {
+							continue
+						}
+						n2++
+						fe := map[core.Edge]bool{{From: e.From, Idx: 1 - e.Idx}: true}
+						if bad := c.effectFreeFrom(f, fe, nil); bad != nil && bad2 == nil {
+							bad2 = bad
+						}
+					}
+				}
+				if bad2 != nil {
+					r.Fail("C03.5-denial-effect-free", construct+" / writer-denied edge", c.pos(bad2), "an instruction with effects is reachable after the write-permission denial: "+bad2.String())
+				} else {
+					r.OK("C03.5-denial-effect-free", construct+" / writer-denied edge", c.pos(site), fmt.Sprintf("only reply/logging between denial and return (%d predicate edges)", n2))
+				}
 			} else {
 				r.OK("C03.5-denial-effect-free", construct+" / writer-denied edge", c.pos(site), "only reply/logging between denial and return")
 			}
